@@ -113,6 +113,9 @@ pub struct LayoutPlan {
     /// holding FREESECT entries only (spare capacity another writer may reserve); counted in
     /// the header, marked DIFSECT in the FAT
     pub spare_difat_sectors: u32,
+    /// arbitrary non-zero UTF-16 units in the 64-byte name field BEHIND the name's terminating
+    /// null (MS-CFB only asks for the terminator; the length field delimits the name)
+    pub name_slack_garbage: bool,
     /// false: balanced trees; true: per storage balanced or insertion-built
     pub library_like_trees: bool,
 }
@@ -147,6 +150,7 @@ pub fn plan_from_seed(seed: u64, version: u16) -> LayoutPlan {
         extra_fat_sectors: 0,
         total_fat_sectors: 0,
         spare_difat_sectors: 0,
+        name_slack_garbage: false,
         library_like_trees,
     }
 }
@@ -798,6 +802,9 @@ pub fn write_image(content: &Dump, plan: &LayoutPlan) -> Result<Vec<u8>, String>
             nunits = k + 1;
         }
         debug_assert_eq!(nunits, units(name));
+        if plan.name_slack_garbage && nunits + 1 < 32 {
+            fill_nonzero(&mut rng, &mut buf[base + 2 * (nunits + 1)..base + 64]);
+        }
         put16(&mut buf, base + 64, (2 * (nunits + 1)) as u16);
         buf[base + 66] = e.kind;
         buf[base + 67] = if e.black { COLOR_BLACK } else { COLOR_RED };
